@@ -170,6 +170,8 @@ class FieldCodeGenerator:
 
     def generate_field(self):
         if self._name is None:
+            if self._length_string in self._context.length_field_is_referenced_map:
+                self._context.length_field_is_referenced_map[self._length_string] = True
             return
 
         field_type = self._get_type()
